@@ -89,6 +89,9 @@ func runDriver() int {
 			return 2
 		}
 	}
+	if os.Getenv("VERIF_DRIVER_MODE") == "replay" {
+		return d.replayMode(os.Getenv("VERIF_REPLAY"))
+	}
 	fmt.Printf("check %s tier=%s seed=%d cases=%d workers=%d\n", d.prop, d.tier, d.seed, d.cases, d.workers)
 
 	d.runPool(d.bin, d.prop, d.cases, "")
@@ -197,6 +200,16 @@ func (d *driver) runWorker(bin, prop string, cases int64, wid int, tag string) {
 				d.mu.Unlock()
 				os.Remove(out)
 				os.Remove(out + ".progress")
+				if rep.AbortAt >= 0 {
+					// the worker recycled itself after a runaway case
+					from = rep.AbortAt - int64(wid) + int64(d.workers)
+					restarts++
+					if restarts > 6 {
+						d.addInfra(fmt.Sprintf("worker %d: too many restarts", wid))
+						return
+					}
+					continue
+				}
 				return
 			}
 		}
@@ -282,7 +295,7 @@ func (d *driver) execReplay(bin, path string) (map[string]any, string, error, bo
 	var err error
 	select {
 	case err = <-done:
-	case <-time.After(10 * time.Minute):
+	case <-time.After(4 * time.Minute):
 		cmd.Process.Kill()
 		<-done
 		return nil, stderr.String(), fmt.Errorf("replay watchdog"), true
@@ -354,7 +367,11 @@ func (d *driver) finish() int {
 		}
 		res, stderr, err, wd := d.execReplay(bin, path)
 		reproduced := false
-		if f.Tape == nil {
+		if f.Unstable {
+			reproduced = true // outside the deterministic core: reported with that note
+			rf.Note = "found by the untouched copy under the Go runtime scheduler: reproduces with probability < 1"
+			writeJSON(path, rf)
+		} else if f.Tape == nil {
 			reproduced = err != nil && !wd
 		} else if res != nil {
 			if vs, ok := res["violations"].([]any); ok {
@@ -539,4 +556,61 @@ func c14Extra(d *driver) {
 			d.mu.Unlock()
 		}
 	}
+}
+
+// replayMode re-runs one recorded case against the current working tree.
+func (d *driver) replayMode(path string) int {
+	b, err := os.ReadFile(path)
+	if err != nil {
+		fmt.Fprintf(os.Stderr, "replay: %v\n", err)
+		return 2
+	}
+	var rf ReplayFile
+	if err := json.Unmarshal(b, &rf); err != nil {
+		fmt.Fprintf(os.Stderr, "replay: %v\n", err)
+		return 2
+	}
+	if rf.Property != d.prop {
+		fmt.Fprintf(os.Stderr, "replay: file is for property %s, not %s\n", rf.Property, d.prop)
+		return 2
+	}
+	bin := d.bin
+	if strings.Contains(rf.Signature, " race ") && d.raceBin != "" {
+		bin = d.raceBin
+	}
+	tmp := filepath.Join(d.scratch, "replay-in.json")
+	must(writeJSON(tmp, rf))
+	res, stderr, rerr, wd := d.execReplay(bin, tmp)
+	if wd {
+		fmt.Fprintf(os.Stderr, "replay: watchdog\n")
+		return 2
+	}
+	reproduced := false
+	var seen []string
+	if rf.Tape == nil {
+		if rerr != nil {
+			class, disc := crashSignature(rf.Property, stderr, 0)
+			sig := rf.Property + " " + class + " " + disc
+			seen = append(seen, sig)
+			reproduced = sig == rf.Signature || strings.HasPrefix(rf.Signature, rf.Property+" "+class)
+		}
+	} else if res != nil {
+		if vs, ok := res["violations"].([]any); ok {
+			for _, v := range vs {
+				if m, ok := v.(map[string]any); ok {
+					seen = append(seen, fmt.Sprint(m["signature"]))
+					if m["signature"] == rf.Signature && m["property"] == rf.Property {
+						reproduced = true
+					}
+				}
+			}
+		}
+	}
+	fmt.Printf("replay of %s\n recorded: %s\n observed now: %v\n", path, rf.Signature, seen)
+	if reproduced {
+		fmt.Printf("VIOLATION property=%s replay=%s\n", rf.Property, path)
+		return 1
+	}
+	fmt.Printf("not reproduced on the current tree\n")
+	return 0
 }
